@@ -348,6 +348,20 @@ impl Prop for C08 {
                     if c.text.contains('+') && sa.len() == sb.len() && sa.iter().zip(sb.iter()).all(|(x, y)| eq(x, y)) {
                         return Verdict::known("C08-plus-join-leading-zero", format!("styles disagree at token {at}: expanded …{}… vs compressed …{}…", show(&na[lo..(at + 6).min(na.len())]), show(&nb[lo..(at + 6).min(nb.len())])));
                     }
+                    // known deviation of the same kind: `<colour> - <text>` is joined when it is printed, so the colour inside the
+                    // joined text is written in the notation of the style, and `#000-0` is one hash token, not a colour
+                    let hex_dash = |t: &str| {
+                        let b = t.as_bytes();
+                        (0..b.len()).any(|i| {
+                            b[i] == b'#' && {
+                                let n = b[i + 1..].iter().take_while(|x| x.is_ascii_hexdigit()).count();
+                                matches!(n, 3 | 4 | 6 | 8) && b.get(i + 1 + n) == Some(&b'-')
+                            }
+                        })
+                    };
+                    if c.text.contains(" - ") && (hex_dash(&tb) || hex_dash(&ta)) {
+                        return Verdict::known("C08-minus-join-colour-notation", format!("styles disagree at token {at}: expanded …{}… vs compressed …{}…", show(&na[lo..(at + 6).min(na.len())]), show(&nb[lo..(at + 6).min(nb.len())])));
+                    }
                     Verdict::fail(format!(
                         "styles disagree at token {at}: expanded …{}… vs compressed …{}…",
                         show(&na[lo..(at + 6).min(na.len())]),
